@@ -143,6 +143,7 @@ Squeeze(x) ==
                    ELSE IF b \in {93, 125} THEN Append(stripc(strip(acc)), b)
                    ELSE Append(acc, b)
   IN FoldLeft(f, <<>>, x)
+DropSp(x) == FoldLeft(LAMBDA acc, b : IF b = 32 /\ acc # <<>> /\ acc[Len(acc)] \in {93, 125} THEN acc ELSE Append(acc, b), <<>>, x)
 \* One-line forms.  Strict without Align: exactly fl.  ALLOW with Align: any padding (the documentation says only that Align
 \* "attempts to align elements of children"; the code pads keys and cells also inside a single line: `{"a":   1, "bbb": 22}`,
 \* `[ [ 1,  2], [10, 20]]`) - a padded one-line form is accepted and counted as model drift.
@@ -293,7 +294,12 @@ LineEnd(x, p) == LET s == {i \in p..Len(x) : x[i] = 10} IN IF s = {} THEN Len(x)
 AccNode(it, c, R, x, p) ==
   LET a == it.n IN
   IF R.o.mode = "indent" THEN
-    IF R.o.ind = 0 /\ ~R.o.tab THEN (IF Match(x, p, Tight(a, R.o.sen)) THEN Move(Tight(a, R.o.sen), <<>>, "tight", FALSE) ELSE Dev("bytes", it, c, 0, R))
+    IF R.o.ind = 0 /\ ~R.o.tab THEN (IF Match(x, p, Tight(a, R.o.sen)) THEN Move(Tight(a, R.o.sen), <<>>, "tight", FALSE)
+                                    \* ALLOW: tight SEN may omit the separating space behind a closing bracket (`[{}null]`; SEN
+                                    \* separators are optional, no text says when the writer omits them); counted as drift
+                                    ELSE IF R.o.sen /\ it.ps = "root" /\ DropSp(SubSeq(x, p, Len(x))) = DropSp(Tight(a, TRUE))
+                                    THEN Move(SubSeq(x, p, Len(x)), <<>>, "tight", TRUE)
+                                    ELSE Dev("bytes", it, c, 0, R))
     ELSE IF Atomic(a) /\ Match(x, p, a.fl) THEN Move(a.fl, <<>>, "atom", FALSE)
     ELSE IF Atomic(a) /\ R.o.sen /\ a.t = "obj" /\ Match(x, p, <<123>> \o NLInd(R, it.lvl) \o <<125>>)
          THEN Move(<<123>> \o NLInd(R, it.lvl) \o <<125>>, <<>>, "empty-object-broken", TRUE)
